@@ -17,6 +17,9 @@
 (*     breaks down exactly at KDim and has the property's shape            *)
 (*     (ExactArnoldiOK), and exports Q and H; for these cases the exact    *)
 (*     test fed to the skeleton is literally cola's test with tol = 0,     *)
+(*   - for the same cases checks scale equivariance (ScaleEquivariant):     *)
+(*     c*A has the same exact basis, c*H, the same breakdown step and      *)
+(*     expected observables, for the dyadic factors of ScaleSet,           *)
 (*   - prints the exact expectations consumed by the harness (Emit).       *)
 (* Blocks of cases are chained so that TLC workers share the catalog.      *)
 (***************************************************************************)
@@ -74,6 +77,18 @@ CaseOK ==
             /\ \A x \in ExcitedSpec(c.V, c.lam, c.sup, VCol(ci)): x.mult = 1
             /\ kd = Cardinality(ExcitedSpec(c.V, c.lam, c.sup, VCol(ci)))
       /\ c.exact => ExactArnoldiOK(c.A, VCol(ci), kd, 64)
+
+\* scale equivariance on the exact-breakdown cases (small dyadic factors: everything stays within 32 bits): same
+\* exact basis, c*H, same breakdown step, hence the same expected observables for every max_iters
+ScaleSet == {[n |-> <<1, 0>>, d |-> 4], QInt(8)}
+ScaleEquivariant ==
+    (AtEntry /\ Case(ci).exact) =>
+      LET c == Case(ci) IN
+      \A s \in ScaleSet:
+        /\ ScaleEquivariantAt(c.A, VCol(ci), s)
+        /\ LET ks == Len(ExactArnoldi(MScale(s, c.A), VCol(ci)).q)
+           IN /\ ks = kd
+              /\ \A q \in 1..(c.A.r + Extra): Expect(q, c.A.r, ks) = Expect(q, c.A.r, kd)
 
 CtlOK ==
     /\ L!CtlInv(alg, N(ci), m, st)
